@@ -390,8 +390,8 @@ class SGen:
                     else:
                         c = self.crit(srcs, 1, ub)
                         sels.append(["t", c])
-            if self.r.random() < 0.2:
-                q["distinct"] = True
+        if self.r.random() < 0.2:
+            q["distinct"] = True
         q["selects"] = sels
         if self.r.random() < 0.6:
             q["where"] = self.citem(srcs, depth, ub)
